@@ -16,9 +16,9 @@ var chainAssume = []string{
 
 func chainFamilies(tier string) []string {
 	if fw.Quick(tier) {
-		return []string{"steady", "ragged", "leak", "churn", "capella", "custom", "ejectall", "lateincl", "churn", "capella", "leak", "ejectdeneb", "lateincl", "massslash", "ragged", "mainnet"}
+		return []string{"steady", "ragged", "leak", "churn", "capella", "custom", "ejectall", "lateincl", "churn", "capella", "leak", "ejectdeneb", "lateincl", "massslash", "sweep", "mainnet"}
 	}
-	return []string{"steady", "ragged", "leak", "churn", "capella", "custom", "mainnet", "lateincl", "churn", "capella", "ragged", "leak", "custom", "ejectall", "lateincl", "ejectdeneb", "massslash"}
+	return []string{"steady", "ragged", "leak", "churn", "capella", "custom", "mainnet", "lateincl", "churn", "capella", "ragged", "leak", "custom", "ejectall", "lateincl", "ejectdeneb", "massslash", "sweep", "shock"}
 }
 
 func init() {
@@ -54,7 +54,7 @@ func init() {
 		},
 		Required: []string{"blocks_compared", "op_attestation", "op_proposer_slashing", "op_attester_slashing", "op_deposit", "op_exit", "op_bls_change", "op_sync_aggregate", "op_execution_payload", "op_withdrawal", "op_blob_commitment", "op_pre_merge_block", "op_merge_transition_block", "refspec_slashings_of_validators_that_already_exited", "refspec_deneb_attestations_included_more_than_one_epoch_late",
 			"first_block_after_upgrade_altair", "first_block_after_upgrade_bellatrix", "first_block_after_upgrade_capella", "first_block_after_upgrade_deneb",
-			"op_attestation_phase0", "op_attestation_altair", "op_attestation_deneb", "op_exit_deneb"},
+			"op_attestation_phase0", "op_attestation_altair", "op_attestation_deneb", "op_exit_deneb", "refspec_withdrawal_sweeps_that_ended_at_the_bound_in_front_of_a_withdrawable_validator"},
 	})
 	fw.Register(&fw.Prop{
 		ID:    "C02",
